@@ -1,8 +1,4 @@
-// ottoh drives the real otto code for the correspondence checks.
-//
-//	ottoh <id> --tier quick|thorough --seed N --out DIR [--findings FILE]
-//	ottoh <id> --replay FILE
-package main
+package h
 
 import (
 	"bufio"
@@ -12,16 +8,13 @@ import (
 	"os"
 	"path/filepath"
 	"strings"
-
-	"ottoverif/h"
 )
 
-func main() {
-	if len(os.Args) < 2 {
-		fmt.Fprintln(os.Stderr, "usage: ottoh <id> [flags]")
-		os.Exit(2)
-	}
-	id := os.Args[1]
+// Main is the entry point of every per-property harness binary (harness/cmd/cNN).
+//
+//	ottoh-CNN --tier quick|thorough --seed N --out DIR [--findings FILE] [--replays DIR]
+//	ottoh-CNN --replay FILE
+func Main(id string) {
 	fs := flag.NewFlagSet("ottoh", flag.ExitOnError)
 	tier := fs.String("tier", "quick", "")
 	seed := fs.Uint64("seed", 1, "")
@@ -29,17 +22,17 @@ func main() {
 	findings := fs.String("findings", "/verif/known_findings.jsonl", "")
 	replays := fs.String("replays", "/verif/replays", "")
 	replay := fs.String("replay", "", "")
-	fs.Parse(os.Args[2:])
+	fs.Parse(os.Args[1:])
 
-	p := h.Lookup(id)
+	p := Lookup(id)
 	if p == nil {
 		fmt.Fprintln(os.Stderr, "unknown property", id)
 		os.Exit(2)
 	}
-	known := h.LoadFindings(*findings, id)
+	known := LoadFindings(*findings, id)
 
 	var lines []string
-	ctx := &h.Ctx{Tier: *tier, Seed: *seed, Rng: h.NewRng(*seed), Dist: map[string]int{}}
+	ctx := &Ctx{Tier: *tier, Seed: *seed, Rng: NewRng(*seed), Dist: map[string]int{}}
 	if *replay != "" {
 		f, err := os.Open(*replay)
 		if err != nil {
@@ -55,7 +48,7 @@ func main() {
 		}
 		f.Close()
 	} else {
-		hCtxInit(ctx)
+		InitCtx(ctx)
 		// corpus of past minimised disagreements first
 		if b, err := os.ReadFile(filepath.Join("/verif/corpus", id+".txt")); err == nil {
 			for _, l := range strings.Split(string(b), "\n") {
@@ -69,13 +62,13 @@ func main() {
 		lines = ctx.Lines
 	}
 
-	impl := h.RunImpl(p, lines)
-	rep, err := h.RunModel(id, lines)
-	res := &h.Result{Property: id}
+	impl := RunImpl(p, lines)
+	rep, err := RunModel(id, lines)
+	res := &Result{Property: id}
 	if err != nil {
 		res.Error = err.Error()
 	} else {
-		res = h.Classify(id, lines, impl, rep, known, *replays, *seed)
+		res = Classify(id, lines, impl, rep, known, *replays, *seed)
 	}
 	res.Tier, res.Seed, res.Dist = *tier, *seed, ctx.Dist
 	seen := map[string]bool{}
@@ -97,7 +90,7 @@ func main() {
 			}
 		}
 	}
-	for _, d := range h.SortedKeys(res.KnownHit) {
+	for _, d := range SortedKeys(res.KnownHit) {
 		fmt.Printf("KNOWN-FINDING: property=%s %s: %s [%d inputs, e.g. %s]\n", id, d, known[d].What, res.KnownHit[d], res.KnownExample[d])
 	}
 	for _, v := range res.Violations {
@@ -116,5 +109,3 @@ func main() {
 		os.Exit(1)
 	}
 }
-
-func hCtxInit(c *h.Ctx) { h.InitCtx(c) }
